@@ -300,6 +300,9 @@ pub fn joins(thorough: bool) -> Vec<Family> {
         bin("=", ta(), ua()),
         bin("<", ta(), ua()),
         bin("AND", bin("=", ta(), ua()), bin("=", tb(), ud())),
+        // a filter conjunct written *before* the equi-join conjunct (local, and across both tables)
+        bin("AND", bin(">", tb(), int(0)), bin("=", ta(), ua())),
+        bin("AND", bin("<", tb(), ud()), bin("=", ta(), ua())),
         bin("=", int(1), int(1)),
         bin("OR", bin("=", ta(), ua()), bin("=", tb(), ud())),
         bin("=", ta(), int(1)),
@@ -319,7 +322,7 @@ pub fn joins(thorough: bool) -> Vec<Family> {
         Some(isnull(ta(), true)),
         Some(bin("OR", isnull(ua(), false), bin("=", tb(), int(1)))),
     ];
-    let (ons, wheres) = if thorough { (ons, wheres) } else { (ons.into_iter().take(8).collect::<Vec<_>>(), wheres.into_iter().take(4).collect::<Vec<_>>()) };
+    let (ons, wheres) = if thorough { (ons, wheres) } else { (ons.into_iter().take(10).collect::<Vec<_>>(), wheres.into_iter().take(4).collect::<Vec<_>>()) };
     let mut progs = vec![];
     for kind in ["JOIN", "LEFT JOIN", "RIGHT JOIN", "FULL JOIN"] {
         for on in &ons {
